@@ -88,6 +88,17 @@ func (m *MemVer) facts(st *State, a string) {
 				// element idx of an array of cnt elements that starts at at: inside exactly when idx < cnt
 				in = app("bvult", idx, cnt)
 			}
+			if kv, _, ok1 := litVal(k); ok1 {
+				if nv, _, ok2 := litVal(cur.n); ok2 {
+					// both constant: decided here
+					if kv < nv {
+						st.assume(eq(app("select", cur.term, a), cur.byteAt(st, k)))
+					} else {
+						st.assume(eq(app("select", cur.term, a), app("select", cur.base.term, a)))
+					}
+					continue
+				}
+			}
 			if v, _, ok := litVal(cur.n); ok && v == 1 {
 				in = eq(k, bvLit(0, 64))
 			}
